@@ -35,19 +35,19 @@ func (c Color) asIndex() Color {
 		return c
 	}
 	// Convert to 256 palette
-	oR := uint8(c >> 16)
-	oG := uint8(c >> 8)
-	oB := uint8(c)
+	oR := float64(uint8(c >> 16))
+	oG := float64(uint8(c >> 8))
+	oB := float64(uint8(c))
 	dist := math.Inf(1)
 	match := -1
 	for i, v := range colorIndex {
-		dR := uint8(v >> 16)
-		dG := uint8(v >> 8)
-		dB := uint8(v)
+		dR := float64(uint8(v >> 16))
+		dG := float64(uint8(v >> 8))
+		dB := float64(uint8(v))
 		// weighted, thanks stackoverflow. We skip the sqrt
 		// because we don't care about the absolute value of the
 		// distance, only the comparisons
-		trial := sq(float64(dR-oR)*.3) + sq(float64(dG-oG)*.59) + sq(float64(dB-oB)*.11)
+		trial := sq((dR-oR)*.3) + sq((dG-oG)*.59) + sq((dB-oB)*.11)
 		if trial < dist {
 			match = i
 			dist = trial
